@@ -261,6 +261,8 @@ def run_family(ctx, family, oracles, n_quick, n_thorough, name=None, nontrivial=
     scen = [FAMILIES[family](rng, i) for i in range(n)]
     traces = e2e.run_many(scen)
     fails = []
+    if not any(o.__name__ in ("o_c02", "o_c02_term", "o_panic") for o in oracles):
+        oracles = list(oracles) + [e2e.o_panic]     # a panicking endpoint fails every family
     for tr in traces:
         s = summarize(tr)
         ctx.evaluations += 1
